@@ -191,7 +191,7 @@ inline int run(int argc, char** argv, ScenFn fn) {
         fprintf(crashes, "%s\n", w.s.c_str()); fflush(crashes); ++ncrash;
         i = at + 1;
     }
-    fclose(crashes); unlink(errfile.c_str());
+    fclose(crashes); if (!getenv("VH_KEEP_STDERR")) unlink(errfile.c_str());
     printf("{\"scenarios\":%zu,\"crashed\":%ld}\n", lines.size(), ncrash);
     return 0;
 }
